@@ -132,8 +132,15 @@ size_t RequestParser::parse(const void *data_ptr, size_t data_size)
             auto head_value = util::string::Strip(str.substr(head_value_start_pos, head_value_end_pos - head_value_start_pos));
             sp_request_->headers[head_key] = head_value;
 
-            if (head_key == "Content-Length")
-                content_length_ = std::stoi(head_value);
+            if (head_key == "Content-Length") {
+                //! 注意：std::stoi() 在值非法或越界时会抛异常，不能让它传播到事件循环中
+                try {
+                    content_length_ = std::stoi(head_value);
+                } catch (const std::exception &) {
+                    state_ = State::kFail;
+                    return pos;
+                }
+            }
 
             pos = end_pos + 2;
         }
